@@ -405,6 +405,33 @@ def _k_builtin(c) -> CaseInfo:
     return CaseInfo(cal_id != "ISO" or t in ("duration", "offset", "instant"), f"builtin:{t}.{name}")
 
 
+def _k_composite(c) -> CaseInfo:
+    """Composite patterns (public CompositePatternBuilder): the text comes from a component whose predicate accepts
+    the value, and parsing it gives the value back; formatting is deterministic."""
+    t, vj, upto = c["type"], c["value"], c.get("upto", 9)
+    if t not in T.COMPOSITES or not T.value_in_domain(t, vj) or not 1 <= upto <= 9:
+        raise InvalidCase
+    v = T.make_value(t, vj)
+    if t in ("date", "datetime") and v.calendar.id != "ISO":
+        raise InvalidCase  # the components carry no calendar field
+    if t == "instant" and not -9998 * 366 * DAY < vj["i"]:
+        raise InvalidCase
+    comp, comps = T.composite(t, "", upto)
+    text = comp.format(v)
+    need(comp.format(v) == text and T.composite(t, "", upto)[0].format(v) == text, "composite/determinism")
+    ok_texts = [p.format(v) for p, pred in comps if pred(v)]
+    need(text in ok_texts, f"composite/text-from-rejected-component/{t}", f"{T.describe(t, v)} -> {text!r}; acceptable {ok_texts}")
+    r = comp.parse(text)
+    need(r.success, f"composite/format-then-parse-fails/{t}", f"{T.describe(t, v)} -> {text!r}: {r.exception if not r.success else ''}")
+    need(T.value_key(t, r.value) == T.value_key(t, v) and r.value == v, f"composite/roundtrip/{t}", f"{T.describe(t, v)} -> {text!r} -> {T.describe(t, r.value)}")
+    # every component's own text parses through the composite too
+    for p, pred in comps:
+        if pred(v):
+            r2 = comp.parse(p.format(v))
+            need(r2.success and r2.value == v, f"composite/component-text/{t}", f"{p.format(v)!r}")
+    return CaseInfo(len(ok_texts) > 1, f"composite:{t}")
+
+
 # ---------------------------------------------------------------------------------------------------------------
 # generators
 # ---------------------------------------------------------------------------------------------------------------
@@ -459,6 +486,15 @@ def task_hyp(ctx: Ctx, shard: int, n: int, cultures: list[str]) -> None:
             case["template"] = tmpl
         ctx.case("fpf", case)
         ctx.case("builtin", {"type": t, "name": bname, "value": v})
+        if t in T.COMPOSITES:
+            # half of the values snapped to a coarser unit, so that the less precise components get chosen
+            vv = dict(v)
+            for key, unit in (("ns", 60 * 10**9), ("i", 60 * 10**9), ("s", 60)):
+                if key in vv and use_tmpl:
+                    vv[key] -= vv[key] % (unit * (60 if len(pattern) % 2 else 1))
+            if t == "duration" and "ns" in vv:
+                vv["ns"] = max(-(2**24) * DAY, min(2**24 * DAY, vv["ns"]))
+            ctx.case("composite", {"type": t, "value": vv, "upto": 1 + len(pattern) % 3 if len(pattern) % 5 == 0 else 9})
 
     run_hypothesis(
         body,
